@@ -20,6 +20,7 @@
 #include <glm/gtx/norm.hpp>
 #include <glm/gtx/component_wise.hpp>
 #include <cstdio>
+#include <limits>
 #include <cstdint>
 #include <cstring>
 #include <cmath>
@@ -64,6 +65,9 @@ int main(int argc, char** argv)
 		E("vec4 compound", { vec4 t = a; t += b; pv(t); t -= c; pv(t); t *= s; pv(t); t /= vec4(3.f); pv(t); ++t; pv(t); })
 		E("vec3 + - * /", pv(a3 + b3); pv(a3 - b3); pv(a3 * b3); pv(a3 * s); pv(-a3))
 		E("vec4 == !=", std::printf(" %d %d %d %d", (int)(a == b), (int)(a != b), (int)(a3 == b3), (int)(a == a)))
+		// IEEE comparison, not a comparison of bit patterns: +0 == -0, NaN != NaN
+		E("vec4 == != on signed zeros and NaN", { vec4 z0(0.f, a.y, -0.f, a.w), z1(-0.f, a.y, 0.f, a.w); float qn = std::numeric_limits<float>::quiet_NaN(); vec4 n0(a.x, qn, a.z, a.w), n1((i % 2) ? -0.f : a.x, a.y, a.z, (i % 3) ? qn : a.w); vec4 m0 = a * 0.f, m1 = -a * 0.f;
+		  std::printf(" %d %d %d %d %d %d %d %d", (int)(z0 == z1), (int)(z0 != z1), (int)(n0 == n0), (int)(n0 != n0), (int)(n1 == n1), (int)(n1 != n1), (int)(m0 == m1), (int)(m0 != m1)); })
 		E("vec3 == with different padding", { vec3 u(a); vec3 v(a.x, a.y, a.z); vec3 w(b); w.x = a.x; w.y = a.y; w.z = a.z; vec3 z = vec3(c) * 0.f + u; std::printf(" %d %d %d %d %d", (int)(u == v), (int)(u == w), (int)(u != w), (int)(v == w), (int)(all(equal(u, z)))); ivec3 iu(ia), iw(ib); iw.x = iu.x; iw.y = iu.y; iw.z = iu.z; std::printf(" %d %d", (int)(iu == iw), (int)(iu != iw)); })
 		E("abs sign", pv(abs(a)); pv(sign(a)); pv(abs(a3)))
 		E("floor ceil trunc round roundEven fract", pv(floor(a)); pv(ceil(a)); pv(trunc(a)); pv(round(a)); pv(roundEven(a)); pv(fract(a)); pv(floor(a3)))
